@@ -844,6 +844,10 @@ func (env *Env) evalCall(e *SCall) (Val, error) {
 				return Val{}, err
 			}
 			if x.Loc == nil {
+				if x.Typ != nil && derefType(x.Typ) != nil {
+					// pointer to a lock
+					return Val{T: fr.lockHeld(env.st, &Loc{Kind: "cell", Base: x.T}, id.Name == "rheld")}, nil
+				}
 				return Val{}, fmt.Errorf("held() needs a lock location")
 			}
 			return Val{T: fr.lockHeld(env.st, x.Loc, id.Name == "rheld")}, nil
